@@ -195,3 +195,47 @@ func VerifC03_CompleteFile(n, pattern int) {
 	vAssert(vSameRecords(recs, all), "completefile-every-record-once-in-order")
 	vReach("end")
 }
+
+// IMergeSequenceBatch (obiuniq): every input batch (a class of 1 or 2 records) becomes exactly one merged record
+// whose count is the size of the class; output batches hold at most `group` of them and are numbered 0..
+// without gap, for every arrival order.
+func VerifC03_Merge(n, pattern, group int) {
+	batches, _ := vMakeBatches(n, pattern)
+	for _, b := range batches {
+		if b.Len() == 0 {
+			vSkip() // a class is never empty
+			return
+		}
+	}
+	arrival := vPermutation(n)
+	firsts := make([]*obiseq.BioSequence, n)
+	sizes := make([]int, n)
+	for i, b := range batches {
+		firsts[i] = b.Slice()[0]
+		sizes[i] = b.Len()
+	}
+	out := vInput(batches, arrival).IMergeSequenceBatch("NA", obiseq.StatsOnDescriptions{}, group)
+	var orders []int
+	var recs []*obiseq.BioSequence
+	sizesOK := true
+	for out.Next() {
+		b := out.Get()
+		orders = append(orders, b.Order())
+		recs = append(recs, b.Slice()...)
+		sizesOK = sizesOK && b.Len() >= 1 && b.Len() <= group
+	}
+	vAssert(vOrdersAreCounting(orders) && sizesOK, "merge-batches-numbered-0-to-m-and-at-most-group-records")
+	ok := len(recs) == n
+	if ok {
+		for j := 0; j < n; j++ {
+			// the j-th merged record is the class that arrived j-th
+			for i := 0; i < n; i++ {
+				if arrival[j] == i {
+					ok = ok && recs[j] == firsts[i] && recs[j].Count() == sizes[i]
+				}
+			}
+		}
+	}
+	vAssert(ok, "merge-one-record-per-class-with-the-class-size-as-count")
+	vReach("end")
+}
